@@ -15,10 +15,11 @@ WT=/tmp/cf_$ID
 git -C /repo worktree remove --force "$WT" >/dev/null 2>&1
 git -C /repo worktree add -q "$WT" HEAD || exit 3
 cd "$WT"
-PYTHONPATH=$WT timeout 300 /venv/bin/python "$OUT/demo.py" >/tmp/cf_$ID.base.log 2>&1; BASE=$?
+mkdir -p "$WT/seed"; cp "$OUT/demo.py" "$WT/seed/demo.py"     # demos locate the library relative to their own path
+PYTHONPATH=$WT timeout 300 /venv/bin/python "$WT/seed/demo.py" >/tmp/cf_$ID.base.log 2>&1; BASE=$?
 git apply "$OUT/patch.diff"; APPLY=$?
 timeout 600 /venv/bin/python -m pytest -q -p no:cacheprovider --timeout=900 >/tmp/cf_$ID.tests.log 2>&1; TESTS=$?
-PYTHONPATH=$WT timeout 300 /venv/bin/python "$OUT/demo.py" >/tmp/cf_$ID.mut.log 2>&1; MUT=$?
+PYTHONPATH=$WT timeout 300 /venv/bin/python "$WT/seed/demo.py" >/tmp/cf_$ID.mut.log 2>&1; MUT=$?
 TESTLINE=$(grep -E "passed|failed" /tmp/cf_$ID.tests.log | tail -1)
 cd /verif
 git -C /repo worktree remove --force "$WT"
@@ -30,7 +31,7 @@ if [ -n "$(git -C /repo status --porcelain --untracked-files=no)" ]; then echo "
 git -C /repo apply "$OUT/patch.diff" || exit 3
 RES=""
 for c in $CHECKS; do
-  ./check $c > /tmp/cf_$ID.$c.log 2>&1; rc=$?
+  timeout 900 ./check $c > /tmp/cf_$ID.$c.log 2>&1; rc=$?
   n=$(grep -c "^VIOLATION" /tmp/cf_$ID.$c.log)
   first=$(grep -A1 "^VIOLATION" /tmp/cf_$ID.$c.log | grep "obligation" | head -1 | sed 's/^ *obligation //' | cut -c1-160)
   conf=$(grep "^VIOLATION" /tmp/cf_$ID.$c.log | grep -vc "no-failing-input-found")
